@@ -85,6 +85,13 @@ def run(c, a):
     c.trace("C07Trace", tev, env={"VGEN": gen}, header=lambda l: '"ev":"tdef"' in l, dedupe=False)
     c.viol[before:] = [v for v in c.viol[before:] if v["rule"].startswith("C20.")]
     c.note("types re-read after use", nt)
+    # (6) conversion and unification: the converted value, the type list handed to Unify and the input types are re-read
+    #     after the calls (rule C20.Immutable in the C08 / C09 trace specs; only C20.* rules are verdicts here)
+    rt, asm = c.rule_text, c.assumptions
+    import checks.c08, checks.c09
+    checks.c08.run(c, a)
+    checks.c09.run(c, a)
+    c.rule_text, c.assumptions = rt, asm
     # (4) copy isolation of mutable helper sets
     from checks import c03, c19
     import importlib
